@@ -5,7 +5,7 @@ import itertools
 
 from ..program import AnalysisError, walk_local, dotted
 from ..analysis import Spec, src, const_value
-from ..rules import (locals_bound_to, substitute_locals, cond_tree, string_template, GWF, EXC, mpt, need_func, stores_to, raise_class,
+from ..rules import (canon, locals_bound_to, substitute_locals, cond_tree, string_template, GWF, EXC, mpt, need_func, stores_to, raise_class,
                      parent_map, kw, is_const, eval_atom, UNKNOWN)
 from . import common, gitcmds
 from .c07 import _explore
@@ -133,8 +133,34 @@ def prune_is_wildcard_delete(prog, an, rep):
             rep.violation(R, c.f.qname, c.where, '`%s` deletes remote '
                           'branches Bert-E does not own (any branch absent '
                           'from the job\'s clone)' % c.text.strip())
-        elif '--prune' in c.tokens and c.sub != 'fetch':
+        elif '--prune' in c.tokens and c.sub not in (
+                'fetch', 'remote', 'pull', 'gc', 'worktree', 'reflog'):
+            # (fetch / remote update / remote prune / gc only drop refs and
+            # objects of the local repository)
             rep.violation(R, c.f.qname, c.where, '`%s`' % c.text.strip())
+    # the long-lived mirror (the only repository refreshed in place, with
+    # cwd=) forgets the branches deleted on the remote: `push --all` from a
+    # clone of a stale mirror would re-create other people's deleted
+    # branches at their old tip
+    n_refresh = 0
+    for c in cmds:
+        cwd = kw(c.call, 'cwd')
+        if cwd is None or is_const(cwd, None):
+            continue
+        if canon(c.f, cwd) in ('self.cmd_directory', 'None'):
+            continue        # the job's own clone, thrown away with the job
+        if c.sub in ('fetch', 'pull') or (
+                c.sub == 'remote' and 'update' in c.tokens):
+            n_refresh += 1
+            rep.evaluated()
+            rep.check('--prune' in c.tokens or '-p' in c.tokens,
+                      'C08.CMD.mirror-prune', c.f.qname + ': the mirror is '
+                      'refreshed with --prune', c.where, '`%s` (cwd=%s) '
+                      'refreshes the long-lived mirror without pruning: '
+                      'branches deleted on the remote survive in it and are '
+                      'pushed back by the next `push --all`' % (
+                          c.text.strip(), src(cwd)))
+    rep.floor('C08 in-place refresh of the mirror', n_refresh, 1)
     push = prog.func(GU + '.push')
     n = 0
     for f in prog.all_funcs():
